@@ -482,7 +482,9 @@ func (option *Option) isFunc() bool {
 func (option *Option) call(value *string) error {
 	var retval []reflect.Value
 
-	if value == nil {
+	if value == nil || option.value.Type().NumIn() == 0 {
+		// A function without parameters is called without arguments, also
+		// when a value was given (e.g. `callback = true' in an ini file)
 		retval = option.value.Call(nil)
 	} else {
 		tp := option.value.Type().In(0)
